@@ -54,3 +54,32 @@ func VerifC03KeyValue() {
 	n2 := NewMapping([]string{entry})
 	vrtAssert("new-mapping", n2[k] == v && len(n2) == 1)
 }
+
+// VerifC03Bytes: a byte size written as a string of decimal digits (leading zeros included) with an optional unit
+// is that decimal number times the unit - the same value as the bare integer.
+func VerifC03Bytes() {
+	digits := []string{"0", "1", "7", "8", "9"}
+	n := 1 + vrtChoice("digits", 3)
+	s := ""
+	want := int64(0)
+	for k := 0; k < n; k++ {
+		d := vrtChoice("digit", len(digits))
+		s += digits[d]
+		want = want*10 + int64(digits[d][0]-'0')
+	}
+	units := []string{"", "b", "k", "kb", "m", "g"}
+	mult := []int64{1, 1, 1024, 1024, 1024 * 1024, 1024 * 1024 * 1024}
+	u := vrtChoice("unit", len(units))
+	var b UnitBytes
+	err := b.DecodeMapstructure(s + units[u])
+	vrtObserve("err", err != nil)
+	vrtAssert("decimal-byte-size-parses", err == nil)
+	if err == nil {
+		vrtObserve("b", int64(b))
+		vrtAssert("decimal-byte-size-value", int64(b) == want*mult[u])
+	}
+	// and what is not a decimal size is rejected
+	bad := []string{"0x10", "0o17", "0b11", "x", "1 2", "--1"}[vrtChoice("malformed", 6)]
+	var c UnitBytes
+	vrtAssert("malformed-byte-size-rejected", c.DecodeMapstructure(bad) != nil)
+}
